@@ -1635,6 +1635,12 @@ type ProposalMessage struct {
 
 // ValidateBasic performs basic validation.
 func (m *ProposalMessage) ValidateBasic() error {
+	// The part count sizes the part set of the round and the peer's bit array
+	// before a single part has been seen: no block has more parts than the
+	// largest allowed block has.
+	if total := m.Proposal.BlockID.PartSetHeader.Total; total > types.MaxBlockPartsCount {
+		return fmt.Errorf("proposal for a block of %d parts, max: %d", total, types.MaxBlockPartsCount)
+	}
 	return m.Proposal.ValidateBasic()
 }
 
